@@ -27,9 +27,23 @@ def _rf_real(x):
     return 1 - np.exp(-np.sqrt(np.maximum(x, 0)) - 0.3 * x)
 
 
-def replay_scaling(model, n=2):
+def replay_scaling(model, n=2, partial=False):
     import numpy as np
     from bluebonnet.forecast import ForecasterOnePhase
+    if partial:
+        m = model_floats(model, ["M", "tau", "M2", "tau2"] + [f"t{k}" for k in range(n)], default=dict(M=1000.0, tau=300.0, M2=2500.0, tau2=120.0, **{f"t{k}": 50.0 * (k + 1) for k in range(n)}))
+        if m["M2"] == m["M"]:
+            m["M2"] = 2.5 * m["M"]
+        if m["tau2"] == m["tau"]:
+            m["tau2"] = 0.4 * m["tau"]
+        f = ForecasterOnePhase(_rf_real)
+        f.M_, f.tau_ = m["M"], m["tau"]
+        t = np.array([m[f"t{k}"] for k in range(n)])
+        a, b = np.asarray(f.forecast_cum(t, M=m["M2"]), float), np.asarray(f.forecast_cum(t, tau=m["tau2"]), float)
+        wa, wb = m["M2"] * _rf_real(t / m["tau"]), m["M"] * _rf_real(t / m["tau2"])
+        bad = bool(np.any(np.abs(a - wa) > 1e-9 * np.abs(wa)) or np.any(np.abs(b - wb) > 1e-9 * np.abs(wb)))
+        return bad, {"what": f"fitted forecaster (M_={m['M']!r}, tau_={m['tau']!r}): forecast_cum(t, M={m['M2']!r}) = {a.tolist()} vs {wa.tolist()}; "
+                             f"forecast_cum(t, tau={m['tau2']!r}) = {b.tolist()} vs {wb.tolist()}", "inputs": m}
     m = model_floats(model, ["M", "tau", "c"] + [f"t{k}" for k in range(n)], default=dict(M=1000.0, tau=300.0, c=3.0, **{f"t{k}": 50.0 * (k + 1) for k in range(n)}))
     f = ForecasterOnePhase(_rf_real)
     t = np.array([m[f"t{k}"] for k in range(n)])
@@ -147,6 +161,15 @@ def job_scaling(job, n):
     for k, pr in enumerate(paths(job, lambda: f.forecast_cum(t), dom)):
         job.prove(f"scaling[{n}]/defaults are the fitted M_, tau_", pr.pc + [T.b_or(*[not_close(pr.value.d[j], vs["M"] * rf(ts[j] / vs["tau"]), abs_tol=Fraction(0)) for j in range(n)])],
                   bound=f"{n} times", replay=rp)
+    # ... each default on its own: overriding only M (or only tau) on a fitted forecaster keeps the other fitted value
+    M2, tau2 = fresh("M2", pos=True), fresh("tau2", pos=True)
+    rp1 = (replay_scaling, {"n": n, "partial": True})
+    for k, pr in enumerate(paths(job, lambda: (f.forecast_cum(t, M=M2), f.forecast_cum(t, tau=tau2)), dom)):
+        a, b = pr.value
+        job.prove(f"scaling[{n}]/only M supplied: M * rf(t / fitted tau_)", pr.pc + [T.b_or(*[not_close(a.d[j], M2 * rf(ts[j] / vs["tau"]), abs_tol=Fraction(0)) for j in range(n)])],
+                  bound=f"{n} times", replay=rp1)
+        job.prove(f"scaling[{n}]/only tau supplied: fitted M_ * rf(t / tau)", pr.pc + [T.b_or(*[not_close(b.d[j], vs["M"] * rf(ts[j] / tau2), abs_tol=Fraction(0)) for j in range(n)])],
+                  bound=f"{n} times", replay=rp1)
 
 
 def job_bounds(job):
